@@ -184,7 +184,14 @@ fn main() {
             }
             let shards = std::env::var("VP_SHARDS").ok().and_then(|s| s.parse().ok()).unwrap_or(16);
             let replay_dir = PathBuf::from(std::env::var("VP_REPLAY_DIR").unwrap_or_else(|_| "/verif/replays".into()));
-            let eng = Engine::new(RunCfg { property: id.clone(), engine: "E2".into(), tier: a.tier, seed: a.seed, shards, replay_dir });
+            let mut eng = Engine::new(RunCfg { property: id.clone(), engine: "E2".into(), tier: a.tier, seed: a.seed, shards, replay_dir });
+            // everything E2 calls is a pure in-process function that normally returns in microseconds:
+            // a case that is still running after 30 seconds is reported with its input
+            eng.hang_limit_s = Some(30);
+            let hang_out = a.out.clone();
+            *eng.on_hang.lock().unwrap() = Some(Box::new(move |e: &Engine| {
+                e.finish(&hang_out, "E2 run aborted: one case did not return (see violations)", &[], "exploration");
+            }));
             let (rule, _) = run_property(&id, &eng, &a);
             if rule.is_empty() {
                 println!("INFRA E2 does not serve {}", id);
